@@ -14,7 +14,7 @@ NA_PURE = {
 CHECKS = {
     "C01": ("machine", "exploration",
             "seeded call programs + hostile signature delivery against the real StateMachine, checked by an independent signature ledger after every call",
-            "Seeded search over call programs (all operations, any phase) and over what a hostile network can deliver as a signature (wrong signer, other state, replayed, duplicated, malformed). After every call the current transaction must carry, per participant, a signature that verifies and that the harness itself recorded as made by that participant over exactly that state encoding. Sampling, not proof: a clean batch is evidence. Waves 8-9: a restore op (RestoreStateMachine from the live machine, nothing observable may change) and a clone op after which the machine left behind must never change again. Wave 10: marathon programs (130-180 promotions), big channels (16/64 participants, 8 assets).",
+            "Seeded search over call programs (all operations, any phase) and over what a hostile network can deliver as a signature (wrong signer, other state, replayed, duplicated, malformed). After every call the current transaction must carry, per participant, a signature that verifies and that the harness itself recorded as made by that participant over exactly that state encoding. Sampling, not proof: a clean batch is evidence. Waves 8-9: a restore op (RestoreStateMachine from the live machine, nothing observable may change) and a clone op after which the machine left behind must never change again. Wave 10: marathon programs (130-180 promotions), big channels (16/64 participants, 8 assets). Wave 11: adjudicator events carry a drawn participant index and an unsigned current state that did not come from the event is a violation of its own.",
             "Trusts the sim backend's ECDSA sign/verify as ground truth for 'verifies'; the ledger cross-check does not. Indices >= N and ForceUpdate/CheckUpdate on a machine without a current state are outside the property's quantifier.",
             "6/C01"),
     "C02": ("machine", "exploration",
@@ -34,12 +34,12 @@ CHECKS = {
             "6/C03"),
     "C04": ("world", "exploration",
             "as C03 plus an adversary registering outdated signed states at seeded instants (between/during updates, during sub-channel funding); outcome vs. honest client's Enabled stream",
-            "The peer's real client runs the off-chain protocol while an adversary goroutine registers earlier fully signed states from that client's own history at drawn instants; the honest side watches and settles when notified. Oracle: the concluded tree consists of states the honest client enabled, each at least as new as what it had enabled when its machine entered Registered, and its payout is at least its balances there. Two genuine defects are recorded as known findings, identified by history shape; every other violation is reported. Later additions: the instant a state is handed to the watcher is recorded by a pass-through wrapper (known-finding shape); a slow user decision on a sub-channel update while the dispute starts, impatient Settle contexts, cancel-on-enable; a driver call that never returns is a violation. Wave 7: a slow user decision on a ledger-channel update while the dispute starts, a user who settles only after the challenge period; a forwarding AdjudicatorSub records when the client's event loop took each event, and the known shape ends 100 ms after the first registered event was taken (an update put on the wire later is not the known defect). Wave 9: the honest side's next Register fails once (armed after the adversary's registration), the ledger re-delivers the latest event twice; a re-delivery after the challenge period is no occasion for the known-finding shape.",
+            "The peer's real client runs the off-chain protocol while an adversary goroutine registers earlier fully signed states from that client's own history at drawn instants; the honest side watches and settles when notified. Oracle: the concluded tree consists of states the honest client enabled, each at least as new as what it had enabled when its machine entered Registered, and its payout is at least its balances there. Two genuine defects are recorded as known findings, identified by history shape; every other violation is reported. Later additions: the instant a state is handed to the watcher is recorded by a pass-through wrapper (known-finding shape); a slow user decision on a sub-channel update while the dispute starts, impatient Settle contexts, cancel-on-enable; a driver call that never returns is a violation. Wave 7: a slow user decision on a ledger-channel update while the dispute starts, a user who settles only after the challenge period; a forwarding AdjudicatorSub records when the client's event loop took each event, and the known shape ends 100 ms after the first registered event was taken (an update put on the wire later is not the known defect). Wave 9: the honest side's next Register fails once (armed after the adversary's registration), the ledger re-delivers the latest event twice; a re-delivery after the challenge period is no occasion for the known-finding shape. Wave 11: the honest side starts watching a channel only after a drawn number of updates (late watch), at the latest when the adversary registers.",
             "Ledger latencies are bounded so that five refutation rounds fit into the challenge period (the protocol's own assumption). Refutations do not extend the challenge period in the reference ledger.",
             "6/C04"),
     "C06": ("world", "exploration",
             "two real clients in a synctest bubble; seeded update programs (sequential, concurrent, several channels) x keyed schedules and yield points (hand-placed hooks plus automatically injected ones at the lock boundaries of a scratch copy); agreement oracle over Enabled/SigAdded streams; token-configuration liveness",
-            "Programs of up to 15 Channel.Update calls from either side on 1-3 channels with keyed accept/reject decisions; strict runs check success => both enabled the proposed state fully signed, rejection => never enabled, no fork, version gap <= 1, accept => enabled, both Acting + probe update; the token configuration additionally forbids any timeout (a lost reply inside the client). Loss, duplication and short contexts run in a separate relaxed configuration that only checks the fully-signed invariant, as the property says. Later additions: eager concurrent openings with an immediate first payment, late return of Publish, the invariant that a controller's in-memory state is the last state it enabled; a driver call that never returns is a violation. Wave 7: channel synchronisation messages injected during the update program (replies taken by the driver); restart runs without a timeout judge the success clause for updates that started on current instances; the survivor may update while its peer is being restored. Wave 9: handlers that answer with a context of 0-8 ms while Publish returns late; the success clause (Update returned nil => both enabled the state) is judged in relaxed runs on non-duplicating networks too. Wave 10: 10-12 channels opened at once by one side, each with an immediate first update, while the responder learns late of the completed funding.",
+            "Programs of up to 15 Channel.Update calls from either side on 1-3 channels with keyed accept/reject decisions; strict runs check success => both enabled the proposed state fully signed, rejection => never enabled, no fork, version gap <= 1, accept => enabled, both Acting + probe update; the token configuration additionally forbids any timeout (a lost reply inside the client). Loss, duplication and short contexts run in a separate relaxed configuration that only checks the fully-signed invariant, as the property says. Later additions: eager concurrent openings with an immediate first payment, late return of Publish, the invariant that a controller's in-memory state is the last state it enabled; a driver call that never returns is a violation. Wave 7: channel synchronisation messages injected during the update program (replies taken by the driver); restart runs without a timeout judge the success clause for updates that started on current instances; the survivor may update while its peer is being restored. Wave 9: handlers that answer with a context of 0-8 ms while Publish returns late; the success clause (Update returned nil => both enabled the state) is judged in relaxed runs on non-duplicating networks too. Wave 10: 10-12 channels opened at once by one side, each with an immediate first update, while the responder learns late of the completed funding. Wave 11: per-party funding confirmation delays (one side learns of the funding much later than the other).",
             "Exactly-once delivery in strict configurations is go-perun's stated assumption about the bus. Same-instant wake-ups are ordered by the Go runtime, not by the seed (measured by the determinism self-test: 0 diverging of 480 runs x 3 executions).",
             "6/C06"),
     "C10": ("persist", "fault_enumeration",
@@ -54,17 +54,17 @@ CHECKS = {
             "6/C11"),
     "C08": ("world", "exploration",
             "real two-party opening protocol under keyed schedules with scenario-controlled nonce shares; crafted single-condition proposal mutants injected by a raw peer (stranger or channel counterparty) at seeded instants",
-            "(a) honest openings of ledger and sub-channels with drawn parameters: both sides must hold byte-identical parameters, ID, participant order and the same fully signed version-0 state equal to the proposal; openings that differ only in one side's nonce share must yield different IDs. (b) 24 kinds of proposals that break one validity condition are re-serialised (decodability enforced) and delivered to a client with or without a matching parent: the proposal handler must not run, no channel may be created, the process must survive (a dead worker is replayed in a fresh process and reported with the panic site) and a later honest proposal must still succeed. Later additions: proposals racing an update in flight on the parent (judged at handler time against the parent's current state), own proposals that the proposer's client refuses followed by an honest one, overlapping openings; a driver call that never returns is a violation. Waves 8-9: proposals built from one re-used options value (library-drawn nonce share, no collision is legitimate), an opening during which one message cannot be sent (the final honest opening must still work), two openings by one proposer at once.",
+            "(a) honest openings of ledger and sub-channels with drawn parameters: both sides must hold byte-identical parameters, ID, participant order and the same fully signed version-0 state equal to the proposal; openings that differ only in one side's nonce share must yield different IDs. (b) 24 kinds of proposals that break one validity condition are re-serialised (decodability enforced) and delivered to a client with or without a matching parent: the proposal handler must not run, no channel may be created, the process must survive (a dead worker is replayed in a fresh process and reported with the panic site) and a later honest proposal must still succeed. Later additions: proposals racing an update in flight on the parent (judged at handler time against the parent's current state), own proposals that the proposer's client refuses followed by an honest one, overlapping openings; a driver call that never returns is a violation. Waves 8-9: proposals built from one re-used options value (library-drawn nonce share, no collision is legitimate), an opening during which one message cannot be sent (the final honest opening must still work), two openings by one proposer at once. Wave 11: proposals whose asset list is a permutation of the parent channel's.",
             "Honest virtual channel openings run in a three-client world (c08v); virtual proposal mutants are injected by a raw peer. Invalid allocations are not decodable with the native serializer and therefore outside (b)'s quantifier there.",
             "6/C08"),
     "C07": ("world", "exploration",
             "adversary edits the counterparty client's outgoing update / sub-channel funding / settlement / virtual-channel funding and settlement messages in flight and re-signs them; independent acceptability predicate; two- and three-party worlds",
-            "The adversary's node runs a real client for the honest protocol steps; at drawn points its outgoing update message is edited (40+ kinds of edits of state, signature, actor, locked sub-allocations, debit/credit distribution, index maps, signed virtual states), re-signed with its key, passed through the serializer and delivered. The honest side's handler accepts everything. Oracle: the honest client countersigned (acceptance message on the bus or state enabled) only if an independent predicate written from the property statement accepts the update for its class (ordinary / sub-channel funding / settlement / virtual funding / virtual settlement as hub). Later additions: multi-message crafts (stale funding after a payment, an ordinary update for v+2 built on v behind the funding update, a settlement crediting a final state whose acceptance could not be sent), send errors on the bus, the invariant that the hub's in-memory state is the last state it enabled. Waves 8-9: a settlement crediting the sub-channel's balances from before its final update.",
+            "The adversary's node runs a real client for the honest protocol steps; at drawn points its outgoing update message is edited (40+ kinds of edits of state, signature, actor, locked sub-allocations, debit/credit distribution, index maps, signed virtual states), re-signed with its key, passed through the serializer and delivered. The honest side's handler accepts everything. Oracle: the honest client countersigned (acceptance message on the bus or state enabled) only if an independent predicate written from the property statement accepts the update for its class (ordinary / sub-channel funding / settlement / virtual funding / virtual settlement as hub). Later additions: multi-message crafts (stale funding after a payment, an ordinary update for v+2 built on v behind the funding update, a settlement crediting a final state whose acceptance could not be sent), send errors on the bus, the invariant that the hub's in-memory state is the last state it enabled. Waves 8-9: a settlement crediting the sub-channel's balances from before its final update. Wave 11: a sub-channel proposal with a funding agreement that differs from the initial balances plus a funding update that debits only the peer accordingly.",
             "The acceptability predicate (c07.go, c07v.go) is the trusted base. Three-party runs use the asynchronous bus only (the hub answers while holding a std mutex, rule R3).",
             "6/C07"),
     "C12": ("world", "exploration",
             "three-party world; seeded sequences of 1-6 decodable hostile envelopes (70 kinds over all request and response types, from the channel counterparty or a stranger) while the victim optionally holds its machine lock; process survival + bounded liveness probes on the fake clock",
-            "Hostile envelopes are built at struct level (dimension mismatches, nil/empty transactions, short/long parent lists and index maps, answers to requests never made or pending, correct signatures over inconsistent content), passed through the run's serializer (native or protobuf; an envelope that cannot be encoded or decoded is outside the quantifier) and delivered at drawn instants, also while the victim's machine lock is held for 3 s or 12 s by a pending own request. Oracle: the worker process survives (a dead worker is replayed in a fresh process and reported with the panic site), and after the last message and 30 simulated seconds every honest probe (Phase, Update with a 60 s context on the channel with an honest third client and on the channel with the adversary's address) returns within 120 simulated seconds with anything but 'could not lock the machine mutex'. A simulation stalled on a mutex inside go-perun is reported as lock-up as well. Later additions: up to three honest virtual channels, locked-list mutations, embedded states with fewer balance columns, empty participant maps, two stateful adversaries around an abandoned or late-funded sub-channel opening, settlement proposals of the two parties 9.99-12 s apart, synchronous bus also in three-party runs. Wave 7: 17-40 late answers to a proposal of the victim that has timed out; the probes may begin with a new channel opening between two honest clients. Waves 8-9: a funding update aimed at the victim's recorded deadline (-1..+4 ms, all yield points on), 17-40 answers after a failed send of the victim's update, send faults while an honest virtual channel is funded or settled, one transient send error anywhere in the honest traffic; second scenario family: two honest clients (payments, sub-channel open/pay/close) with 2-12 % failing sends, then probes from both sides on every open channel (no lock wait, no unanswered request).",
+            "Hostile envelopes are built at struct level (dimension mismatches, nil/empty transactions, short/long parent lists and index maps, answers to requests never made or pending, correct signatures over inconsistent content), passed through the run's serializer (native or protobuf; an envelope that cannot be encoded or decoded is outside the quantifier) and delivered at drawn instants, also while the victim's machine lock is held for 3 s or 12 s by a pending own request. Oracle: the worker process survives (a dead worker is replayed in a fresh process and reported with the panic site), and after the last message and 30 simulated seconds every honest probe (Phase, Update with a 60 s context on the channel with an honest third client and on the channel with the adversary's address) returns within 120 simulated seconds with anything but 'could not lock the machine mutex'. A simulation stalled on a mutex inside go-perun is reported as lock-up as well. Later additions: up to three honest virtual channels, locked-list mutations, embedded states with fewer balance columns, empty participant maps, two stateful adversaries around an abandoned or late-funded sub-channel opening, settlement proposals of the two parties 9.99-12 s apart, synchronous bus also in three-party runs. Wave 7: 17-40 late answers to a proposal of the victim that has timed out; the probes may begin with a new channel opening between two honest clients. Waves 8-9: a funding update aimed at the victim's recorded deadline (-1..+4 ms, all yield points on), 17-40 answers after a failed send of the victim's update, send faults while an honest virtual channel is funded or settled, one transient send error anywhere in the honest traffic; second scenario family: two honest clients (payments, sub-channel open/pay/close) with 2-12 % failing sends, then probes from both sides on every open channel (no lock wait, no unanswered request). Wave 11: a sub-channel between the adversary and the hub; a virtual settlement proposal that names this sub-channel instead of the virtual channel.",
             "The adversary's address is served by a real client that answers probes honestly but never sync messages (two clients running the library's sync handler bounce replies forever; noted in DESIGN). Runs are capped at 20000 seam events.",
             "6/C12"),
     "C13": ("link", "fault_enumeration",
@@ -74,7 +74,7 @@ CHECKS = {
             "6/C13"),
     "C14": ("link", "exploration",
             "streams of 1-20 concatenated seeded values of every wire type through both serializers; exact consumption, structural equality, byte-stable native re-encoding, signature and ID survival, serializer agreement; 2-3 concurrent senders on slow simulated connections in a synctest bubble",
-            "Seeded values of all 17 message types and all serialisable channel values (full shape space of the property) are written back to back on one simulated link and decoded in order; each decode must yield an equal value (harness's own field-by-field comparison), stop exactly at the end of its bytes, re-encode natively to the same bytes, keep signatures verifying and IDs equal; envelopes through protobuf must agree with the native result. The world engines additionally re-serialise every envelope of every run with the run's serializer. Wave 7: a second channel backend (id 1, 20-byte assets): in a quarter of the shapes every second asset lives on the second ledger. Wave 10: balances of exactly 128 bytes; balance matrices of 65536 entries and more with each dimension inside its limit.",
+            "Seeded values of all 17 message types and all serialisable channel values (full shape space of the property) are written back to back on one simulated link and decoded in order; each decode must yield an equal value (harness's own field-by-field comparison), stop exactly at the end of its bytes, re-encode natively to the same bytes, keep signatures verifying and IDs equal; envelopes through protobuf must agree with the native result. The world engines additionally re-serialise every envelope of every run with the run's serializer. Wave 7: a second channel backend (id 1, 20-byte assets): in a quarter of the shapes every second asset lives on the second ledger. Wave 10: balances of exactly 128 bytes; balance matrices of 65536 entries and more with each dimension inside its limit. Wave 11: wire address maps with non-contiguous backend ids.",
             "Input generation, not enumeration. Wire address maps carry up to three backend ids; wallet address maps only backend id 0 (the only wallet backend of the repository). In a fifth of the runs the envelopes are also encoded by 2-3 goroutines at once, each to its own connection whose writes take keyed simulated time; every connection must carry exactly what its sender sent.",
             "6/C14"),
     "C16": ("link", "fault_enumeration",
@@ -94,7 +94,7 @@ CHECKS = {
             "6/C18"),
     "C20": ("multi", "exploration",
             "real multi.Adjudicator/Funder over scripted per-ledger backends in a bubble; keyed sub-call latencies (all completion orders), failures and stalls; call-log oracle; race-detector pass",
-            "Asset lists of 1-6 multi-ledger assets over up to 6 ledgers (repeated, reordered, unregistered, foreign ledgers registered), calls Register/Progress/Withdraw/Fund with and without an egoistic participant; from the call logs: every distinct ledger of the channel called exactly once and no other, success only if every forwarded call succeeded and every ledger was registered, the egoistic ledger's Fund starts only after all others returned nil, no dispatcher goroutine outlives the run. Later additions: the request's own content varies (secondary flag, participant index, zero balances per asset, sub-channel states); the caller may cancel its context while sub-calls are pending. Wave 9: twin requests (the other participant issues the same kind of request for the same channel and registered state concurrently), told apart by participant index. Wave 10: ledger ids that differ from another ledger's only by a white-space byte at an end.",
+            "Asset lists of 1-6 multi-ledger assets over up to 6 ledgers (repeated, reordered, unregistered, foreign ledgers registered), calls Register/Progress/Withdraw/Fund with and without an egoistic participant; from the call logs: every distinct ledger of the channel called exactly once and no other, success only if every forwarded call succeeded and every ledger was registered, the egoistic ledger's Fund starts only after all others returned nil, no dispatcher goroutine outlives the run. Later additions: the request's own content varies (secondary flag, participant index, zero balances per asset, sub-channel states); the caller may cancel its context while sub-calls are pending. Wave 9: twin requests (the other participant issues the same kind of request for the same channel and registered state concurrently), told apart by participant index. Wave 10: ledger ids that differ from another ledger's only by a white-space byte at an end. Wave 11: the egoistic participant's ledger may be first in the asset list.",
             "The converse 'fails although nothing failed' is only counted (the statement says 'succeeds only if').",
             "6/C20"),
 }
